@@ -284,6 +284,255 @@ def find_receiver_start(toks, k_dot):
         return k
 
 
+
+# --------------------------------------------------------------------------------------
+# closure literals in argument position (rules R16 / R17 and the runner's "un-annotated closure" test)
+# --------------------------------------------------------------------------------------
+BENIGN_CLOSURE_SINKS = ('map_err', 'ok_or_else')   # the closure only builds the *error* value of a refusal
+KEYWORDS_IN_BODY = {'if', 'match', 'return', 'while', 'for', 'loop', 'let', 'break', 'continue', 'unsafe', 'move',
+                    'as', 'await', 'async', 'else'}
+
+
+class Closure:
+    """a closure literal `|params| body` that is an argument of a call"""
+    __slots__ = ('bar0', 'bar1', 'params', 'arrow', 'body_lo', 'body_hi', 'block', 'method', 'open_paren', 'close_paren',
+                 'arg_index', 'dot')
+
+
+def find_arg_closures(toks):
+    """closure literals whose first token directly follows `(` or `,` (argument position); returns Closure records
+    with token indices"""
+    res = []
+    n = len(toks)
+    for k in range(n):
+        t = toks[k]
+        if t.kind not in CODE_KINDS or t.text not in ('|', '||'):
+            continue
+        p = prev_code(toks, k)
+        if p >= 0 and toks[p].text == 'move':
+            p = prev_code(toks, p)
+        if p < 0 or toks[p].text not in ('(', ','):
+            continue
+        c = Closure()
+        c.bar0 = k
+        if t.text == '||':
+            c.bar1 = k
+            c.params = ''
+        else:
+            j = next_code(toks, k)
+            depth = 0
+            while j < n:
+                x = toks[j].text
+                if x in ('(', '[', '<'):
+                    depth += 1
+                elif x in (')', ']', '>'):
+                    depth -= 1
+                elif x == '|' and depth == 0:
+                    break
+                j = next_code(toks, j)
+            if j >= n:
+                continue
+            c.bar1 = j
+            c.params = None
+        a = next_code(toks, c.bar1)
+        c.arrow = toks[a].text == '->'
+        # enclosing call: walk back to the unmatched '('
+        depth = 0
+        j = k - 1
+        commas = 0
+        while j >= 0:
+            if toks[j].kind in CODE_KINDS:
+                x = toks[j].text
+                if x in (')', ']', '}'):
+                    depth += 1
+                elif x in ('(', '[', '{'):
+                    if depth == 0:
+                        break
+                    depth -= 1
+                elif x == ',' and depth == 0:
+                    commas += 1
+            j -= 1
+        if j < 0 or toks[j].text != '(':
+            continue
+        c.open_paren = j
+        c.arg_index = commas
+        try:
+            c.close_paren = match_close(toks, j)
+        except Exception:  # noqa
+            continue
+        m = prev_code(toks, j)
+        # turbofish `method::<T>(`
+        if m >= 0 and toks[m].text in ('>', '>>'):
+            d2 = 0
+            while m >= 0:
+                if toks[m].text in ('>',):
+                    d2 += 1
+                elif toks[m].text == '>>':
+                    d2 += 2
+                elif toks[m].text == '<':
+                    d2 -= 1
+                    if d2 == 0:
+                        break
+                m = prev_code(toks, m)
+            m = prev_code(toks, m)
+            if m >= 0 and toks[m].text == '::':
+                m = prev_code(toks, m)
+        c.method = toks[m].text if m >= 0 and toks[m].kind == 'ident' else None
+        d = prev_code(toks, m) if m >= 0 else -1
+        c.dot = d if d >= 0 and toks[d].text == '.' else None
+        if c.arrow:
+            c.block, c.body_lo, c.body_hi = True, None, None
+            res.append(c)
+            continue
+        if toks[a].text == '{':
+            c.block = True
+            c.body_lo = a
+            try:
+                c.body_hi = match_close(toks, a)
+            except Exception:  # noqa
+                continue
+        else:
+            c.block = False
+            c.body_lo = a
+            depth = 0
+            j = a
+            last = a
+            while j < n:
+                x = toks[j].text
+                if x in ('(', '[', '{'):
+                    depth += 1
+                elif x in (')', ']', '}'):
+                    if depth == 0:
+                        break
+                    depth -= 1
+                elif x == ',' and depth == 0:
+                    break
+                last = j
+                j = next_code(toks, j)
+            c.body_hi = last
+        res.append(c)
+    return res
+
+
+def closure_body_is_projection(toks, lo, hi):
+    """the body is built from names, field / tuple projections, paths and struct / variant constructors only - text
+    that means the same in a specification as in executable code (no calls of functions or methods, no operators,
+    no macros, no control flow)"""
+    j = lo
+    while j <= hi:
+        t = toks[j]
+        if t.kind not in CODE_KINDS:
+            j += 1
+            continue
+        x = t.text
+        if t.kind == 'ident':
+            if x in KEYWORDS_IN_BODY:
+                return False
+            nx = next_code(toks, j)
+            if nx <= hi and toks[nx].text == '(' and not x[:1].isupper():
+                return False
+            if nx <= hi and toks[nx].text == '!':
+                return False
+        elif t.kind in ('num', 'int', 'number'):
+            pv = prev_code(toks, j)
+            if pv < lo or toks[pv].text != '.':
+                return False
+        elif t.kind == 'punct':
+            if x not in ('.', '::', '{', '}', ':', ',', '(', ')', '&'):
+                return False
+        else:
+            return False
+        j += 1
+    return True
+
+
+def unannotated_value_closures(text):
+    """(method, snippet) of every un-annotated closure literal whose result the verifier cannot see: argument-position
+    closures without `-> (r: T) ensures` that are not the error-building argument of map_err / ok_or_else"""
+    toks = lex(text)
+    out = []
+    for c in find_arg_closures(toks):
+        if c.arrow or c.method in BENIGN_CLOSURE_SINKS:
+            continue
+        out.append((c.method, text[toks[c.bar0].start:toks[c.body_hi].end][:80]))
+    return out
+
+
+def rewrite_closures(src, modpath, report):
+    """R16: `X.unwrap_or_else(|| E)`, `X.map_or_else(|| D, |p| E)`, `X.or_else(|| E)` (zero-argument first closure: the
+          receiver is an Option) are replaced by the `match` that defines them - the closure body moves into the arm
+          verbatim (only if it contains no `?` / `return`, whose meaning would change)
+       R17: an un-annotated argument closure whose body is a projection / constructor expression gets the header
+          `-> (ret__: _) ensures equal(ret__, BODY)`, BODY verbatim: Verus derives nothing from an un-annotated closure"""
+    counts = report.setdefault('rules', {})
+    toks = lex(src)
+    cls = find_arg_closures(toks)
+    edits = []
+    taken = []
+
+    def overlaps(a, b):
+        return any(not (b <= x or a >= y) for x, y in taken)
+
+    def body_text(c):
+        if c.block:
+            return src[toks[c.body_lo].start:toks[c.body_hi].end]
+        return src[toks[c.body_lo].start:toks[c.body_hi].end]
+
+    def has_escape(c):
+        return any(toks[j].kind in CODE_KINDS and toks[j].text in ('?', 'return', 'break', 'continue')
+                   for j in range(c.body_lo, c.body_hi + 1))
+
+    by_call = {}
+    for c in cls:
+        by_call.setdefault(c.open_paren, []).append(c)
+    # R16
+    for op, group in by_call.items():
+        c0 = group[0]
+        if c0.method not in ('unwrap_or_else', 'map_or_else', 'or_else') or c0.dot is None or c0.arrow:
+            continue
+        if c0.arg_index != 0 or c0.params != '' or has_escape(c0):
+            continue
+        try:
+            rs = find_receiver_start(toks, c0.dot)
+        except GenError:
+            continue
+        recv = src[toks[rs].start:toks[c0.dot].start].strip()
+        a, b = toks[rs].start, toks[c0.close_paren].end
+        if overlaps(a, b):
+            continue
+        if c0.method == 'unwrap_or_else' and len(group) == 1:
+            rep = '(match %s { Some(v__) => v__, None => %s })' % (recv, body_text(c0))
+        elif c0.method == 'or_else' and len(group) == 1:
+            rep = '(match %s { Some(v__) => Some(v__), None => %s })' % (recv, body_text(c0))
+        elif c0.method == 'map_or_else' and len(group) == 2 and not group[1].arrow and not has_escape(group[1]) \
+                and group[1].params is None:
+            c1 = group[1]
+            pat = src[toks[next_code(toks, c1.bar0)].start:toks[prev_code(toks, c1.bar1)].end]
+            if ':' in pat:
+                continue
+            rep = '(match %s { Some(%s) => %s, None => %s })' % (recv, pat, body_text(c1), body_text(c0))
+        else:
+            continue
+        edits.append((a, b, rep))
+        taken.append((a, b))
+        counts['R16'] = counts.get('R16', 0) + 1
+    # R17
+    for c in cls:
+        if c.arrow or c.block:
+            continue
+        a, b = toks[c.bar0].start, toks[c.body_hi].end
+        if overlaps(a, b):
+            continue
+        if not closure_body_is_projection(toks, c.body_lo, c.body_hi):
+            continue
+        body = body_text(c)
+        head = src[toks[c.bar0].start:toks[c.bar1].end]
+        edits.append((a, b, '%s -> (ret__: _) ensures equal(ret__, %s) { %s }' % (head, body, body)))
+        taken.append((a, b))
+        counts['R17'] = counts.get('R17', 0) + 1
+    return apply_edits(src, edits) if edits else src
+
+
 def rewrite_isolated(src, modpath, report, force_stub=()):
     """apply the token rules function by function: a body that falls outside the rules (or that the verifier
     could not translate on a previous attempt: force_stub) is replaced by `unimplemented!()`; its contract is then
@@ -302,7 +551,7 @@ def rewrite_isolated(src, modpath, report, force_stub=()):
             out.append('{ unimplemented!() }')
         else:
             try:
-                out.append(rewrite_tokens(src[a:b], modpath, report))
+                out.append(rewrite_closures(rewrite_tokens(src[a:b], modpath, report), modpath, report))
             except GenError as e:
                 report['unextractable'][q] = str(e)
                 out.append('{ unimplemented!() }')
@@ -461,7 +710,8 @@ def rewrite_tokens(src, modpath, report):
             fop = prev_code(toks, e)
             fcl = match_close(toks, fop)
             inner = re.sub(r'\s+', '', src[toks[fop].end:toks[fcl].start])
-            if not re.fullmatch(r'\|(\w+)\|\1\.ok\(\)\.map\(\|(\w+)\|\2\.0\)', inner):
+            if not (re.fullmatch(r'\|(\w+)\|\1\.ok\(\)\.map\(\|(\w+)\|\2\.0\)', inner)
+                    or re.fullmatch(r'\|(\w+)\|\1\.ok\(\)\.map\(\|\((\w+),_\w*\)\|\2\)', inner)):
                 raise GenError('R7: filter_map closure shape changed: %s' % inner)
             e2 = seq_match(toks, next_code(toks, fcl), ['.', 'collect', '(', ')'])
             if e2 < 0:
@@ -523,8 +773,8 @@ def rewrite_tokens(src, modpath, report):
             bump('R14')
             k = j
             continue
-        # R11  &mut dyn Storage / &dyn Storage
-        if t.text == 'dyn' and toks[next_code(toks, k)].text == 'Storage':
+        # R11  &mut dyn Storage / &dyn Storage / &dyn Api
+        if t.text == 'dyn' and toks[next_code(toks, k)].text in ('Storage', 'Api'):
             j = next_code(toks, k)
             edits.append((t.start, toks[j].start, ''))
             bump('R11')
@@ -984,12 +1234,92 @@ def find_loops_and_closures(toks, lo, hi):
                         b = next_code(toks, b)
                 # only closures with an explicit return type and a block body take a contract (rule R8);
                 # ordinals count those only
-                if arrow is not None and toks[b].text == '{':
+                r17 = arrow is not None and toks[next_code(toks, next_code(toks, arrow))].text == 'ret__'
+                if arrow is not None and toks[b].text == '{' and not r17:
                     closures.append((k, j, arrow, b))
                 k = j + 1
                 continue
         k += 1
     return loops, closures
+
+
+
+def make_role_resolver(src, toks, f, loops):
+    """contract text names the locals a loop invariant / closure contract has to talk about by their ROLE in the code,
+    so that renaming a local is not a lost anchor:  $iterN  = the collection loop N iterates (`for x in [&]E[.iter()]`),
+    $pushN = the vector that receives `.push(..)` in the body of loop N,  $let{INIT} = the variable bound by
+    `let [mut] v[: T] = INIT...;` (INIT compared without white space, as a prefix)"""
+    def strip_ws(x):
+        return re.sub(r'\s+', '', x)
+
+    def iter_of(n):
+        if n >= len(loops):
+            raise GenError('%s: $iter%d but the body has %d loops (lost anchor)' % (f.qname, n, len(loops)))
+        kind, kw, in_i, bopen, bclose = loops[n]
+        if kind != 'for' or in_i is None:
+            raise GenError('%s: $iter%d: loop is not a for loop (lost anchor)' % (f.qname, n))
+        e = strip_ws(src[toks[in_i].end:toks[bopen].start])
+        e = re.sub(r'^\w+:', '', e)          # ghost iterator name already woven
+        e = re.sub(r'^&(mut)?', '', e)
+        e = re.sub(r'(\.iter\(\)|\.into_iter\(\)|\.clone\(\)|\.iter_mut\(\))+$', '', e)
+        if not re.fullmatch(r'[A-Za-z_][\w.]*', e):
+            raise GenError('%s: $iter%d: iterated expression %r is not a path (lost anchor)' % (f.qname, n, e))
+        return e
+
+    def push_of(n):
+        if n >= len(loops):
+            raise GenError('%s: $push%d but the body has %d loops (lost anchor)' % (f.qname, n, len(loops)))
+        kind, kw, in_i, bopen, bclose = loops[n]
+        k = bopen
+        while k < bclose:
+            if toks[k].kind in CODE_KINDS and toks[k].text == '.' and seq_match(toks, k, ['.', 'push', '(']) > 0:
+                rs = find_receiver_start(toks, k)
+                return strip_ws(src[toks[rs].start:toks[k].start])
+            k += 1
+        raise GenError('%s: $push%d: no push in loop %d (lost anchor)' % (f.qname, n, n))
+
+    def let_of(prefix):
+        want = strip_ws(prefix)
+        found = []
+        k = f.body_open
+        while k < f.body_close:
+            t = toks[k]
+            if t.kind == 'ident' and t.text == 'let':
+                j = next_code(toks, k)
+                if toks[j].text == 'mut':
+                    j = next_code(toks, j)
+                name = toks[j]
+                e = next_code(toks, j)
+                # optional type annotation up to '=' at depth 0
+                depth = 0
+                while e < f.body_close and not (toks[e].text == '=' and depth == 0):
+                    if toks[e].text in ('<', '(', '['):
+                        depth += 1
+                    elif toks[e].text in ('>', ')', ']'):
+                        depth -= 1
+                    elif toks[e].text == '>>':
+                        depth -= 2
+                    elif toks[e].text == ';':
+                        break
+                    e = next_code(toks, e)
+                if e < f.body_close and toks[e].text == '=' and name.kind == 'ident':
+                    init = strip_ws(src[toks[e].end:toks[e].end + 4 * len(prefix) + 200])
+                    if init.startswith(want):
+                        found.append(name.text)
+            k += 1
+        found = sorted(set(found))
+        if len(found) != 1:
+            raise GenError('%s: $let{%s}: %d matching let statements (lost anchor)' % (f.qname, prefix, len(found)))
+        return found[0]
+
+    def resolve(text):
+        if '$' not in text:
+            return text
+        text = re.sub(r'\$iter(\d+)', lambda m: iter_of(int(m.group(1))), text)
+        text = re.sub(r'\$push(\d+)', lambda m: push_of(int(m.group(1))), text)
+        text = re.sub(r'\$let\{([^}]*)\}', lambda m: let_of(m.group(1)), text)
+        return text
+    return resolve
 
 
 def fn_edits(src, toks, f, c, mode, mapping, variant):
@@ -1037,8 +1367,9 @@ def fn_edits(src, toks, f, c, mode, mapping, variant):
     if variant['external_body']:
         # the body is not verified: no proof text, invariants or closure contracts are woven into it
         return edits, item_start, len(loops), len(closures)
+    resolve = make_role_resolver(src, toks, f, loops)
     if entry.strip():
-        edits.append((toks[f.body_open].end, toks[f.body_open].end, '\n' + entry))
+        edits.append((toks[f.body_open].end, toks[f.body_open].end, '\n' + resolve(entry)))
     for ordinal, lc in c.loops.items():
         if ordinal >= len(loops):
             raise GenError('%s: contract names loop#%d but the body has %d loops (lost anchor)'
@@ -1054,11 +1385,11 @@ def fn_edits(src, toks, f, c, mode, mapping, variant):
             txt += '\n        decreases ' + ', '.join(dec) + ','
         if kind == 'for' and lc.iter:
             edits.append((toks[in_i].end, toks[in_i].end, ' %s:' % lc.iter))
-        edits.append((toks[bopen].start, toks[bopen].start, txt + '\n    '))
+        edits.append((toks[bopen].start, toks[bopen].start, resolve(txt) + '\n    '))
         if lc.entry.strip():
-            edits.append((toks[bopen].end, toks[bopen].end, '\n' + rename_params(lc.entry, mapping)))
+            edits.append((toks[bopen].end, toks[bopen].end, '\n' + resolve(rename_params(lc.entry, mapping))))
         if lc.exit.strip():
-            edits.append((toks[bclose].start, toks[bclose].start, rename_params(lc.exit, mapping) + '\n'))
+            edits.append((toks[bclose].start, toks[bclose].start, resolve(rename_params(lc.exit, mapping)) + '\n'))
     for ordinal, cc in c.closures.items():
         if ordinal >= len(closures):
             raise GenError('%s: contract names closure#%d but the body has %d closures (lost anchor)'
@@ -1072,7 +1403,7 @@ def fn_edits(src, toks, f, c, mode, mapping, variant):
             hdr += '\n            requires\n' + creq
         if cens:
             hdr += '\n            ensures\n' + cens
-        edits.append((toks[b1].start, toks[bopen].start, hdr + '\n        '))
+        edits.append((toks[b1].start, toks[bopen].start, resolve(hdr) + '\n        '))
     return edits, item_start, len(loops), len(closures)
 
 
@@ -1098,113 +1429,125 @@ def weave(src, modpath, contracts, mode, report, used, vacuity_props=None):
                            % (f.qname, len(c.params), len(f.params)))
         mapping = {a: b for a, b in zip(c.params, f.params) if a != b}
         groups = [g for g in c.groups if g['mode'] in ('both', mode)]
-        if f.qname in report.get('unextractable', {}):
-            e, _, nl, nc = fn_edits(src, toks, f, c, mode, mapping,
-                                    {'suffix': None, 'labels': None, 'extra_requires': [],
-                                     'external_body': True, 'marker': f.qname, 'note': 'UNEXTRACTABLE'})
-            edits.extend(e)
-            finfo['unextractable'] = report['unextractable'][f.qname]
-        elif vacuity_props is not None:
-            # vacuity file: nothing is re-verified; for every function carrying a clause of the property a twin
-            # claims the opposite of reachability (`r is Err` / `false`) under the same preconditions - it MUST fail
-            e, item_start, nl, nc = fn_edits(src, toks, f, c, mode, mapping,
-                                             {'suffix': None, 'labels': None, 'extra_requires': [],
-                                              'external_body': True, 'marker': f.qname, 'note': 'VACUITY-ORIGINAL'})
-            edits.extend(e)
-            relevant = any((set(x.props) & set(vacuity_props)) or '*' in x.props
-                           for x in c.clauses if x.kind == 'ensures' and x.mode in ('both', mode) and x.label != 'inv.wf')
-            takes_part = (mode != 'strict' or c.strict)
-            if relevant and takes_part and not f.in_trait_impl:
-                is_result = f.ret_text is not None and re.match(r'(Result|StdResult)\b', f.ret_text or '')
-                variants = []
-                gl = [g for g in groups if g.get('assume')]
-                if gl:
-                    for g in gl:
-                        if any(a.strip() == 'false' for a in g['assume']):
-                            continue
-                        variants.append((g['name'], list(g['assume'])))
+        # an anchor of the contract that the body no longer has (a loop or closure that was refactored away) takes this
+        # function out of reach only: it is stubbed (contract assumed) and its properties are reported undecided
+        for attempt in (0, 1):
+            mark = len(edits)
+            try:
+                if f.qname in report.get('unextractable', {}):
+                    e, _, nl, nc = fn_edits(src, toks, f, c, mode, mapping,
+                                            {'suffix': None, 'labels': None, 'extra_requires': [],
+                                             'external_body': True, 'marker': f.qname, 'note': 'UNEXTRACTABLE'})
+                    edits.extend(e)
+                    finfo['unextractable'] = report['unextractable'][f.qname]
+                elif vacuity_props is not None:
+                    # vacuity file: nothing is re-verified; for every function carrying a clause of the property a twin
+                    # claims the opposite of reachability (`r is Err` / `false`) under the same preconditions - it MUST fail
+                    e, item_start, nl, nc = fn_edits(src, toks, f, c, mode, mapping,
+                                                     {'suffix': None, 'labels': None, 'extra_requires': [],
+                                                      'external_body': True, 'marker': f.qname, 'note': 'VACUITY-ORIGINAL'})
+                    edits.extend(e)
+                    relevant = any((set(x.props) & set(vacuity_props)) or '*' in x.props
+                                   for x in c.clauses if x.kind == 'ensures' and x.mode in ('both', mode) and x.label != 'inv.wf')
+                    takes_part = (mode != 'strict' or c.strict)
+                    if relevant and takes_part and not f.in_trait_impl:
+                        is_result = f.ret_text is not None and re.match(r'(Result|StdResult)\b', f.ret_text or '')
+                        variants = []
+                        gl = [g for g in groups if g.get('assume')]
+                        if gl:
+                            for g in gl:
+                                if any(a.strip() == 'false' for a in g['assume']):
+                                    continue
+                                variants.append((g['name'], list(g['assume'])))
+                        else:
+                            variants.append(('all', []))
+                        end = toks[f.body_close].end
+                        copies = []
+                        for vname, extra in variants:
+                            vc = FnContract(c.qname)
+                            vc.params, vc.ret, vc.entry, vc.loops, vc.closures, vc.attrs = c.params, c.ret, c.entry, c.loops, c.closures, c.attrs
+                            vc.clauses = [x for x in c.clauses if x.kind == 'requires'] + [
+                                Clause('ensures', 'vacuity.%s' % vname, ['*'], 'both',
+                                       ('%s is Err' % c.ret) if is_result else 'false', 'generated')]
+                            ce, cstart, _, _ = fn_edits(src, toks, f, vc, mode, mapping,
+                                                        {'suffix': '__vac_%s' % vname, 'labels': None, 'extra_requires': extra,
+                                                         'external_body': False, 'marker': '%s#vac#%s' % (f.qname, vname)})
+                            rel = [(a - cstart, b - cstart, t) for a, b, t in ce]
+                            txt = apply_edits(src[cstart:end], rel)
+                            if txt.startswith('pub '):
+                                txt = txt[4:]
+                            copies.append(txt)
+                        edits.append((end, end, '\n' + '\n'.join(copies) + '\n'))
+                        finfo['vacuity_twins'] = [v[0] for v in variants]
+                elif mode == 'strict' and not c.strict:
+                    e, _, nl, nc = fn_edits(src, toks, f, c, mode, mapping,
+                                            {'suffix': None, 'labels': None, 'extra_requires': [],
+                                             'external_body': True, 'marker': f.qname, 'note': 'NOT-IN-STRICT'})
+                    edits.extend(e)
+                    finfo['strict'] = False
+                elif not groups:
+                    e, _, nl, nc = fn_edits(src, toks, f, c, mode, mapping,
+                                            {'suffix': None, 'labels': None, 'extra_requires': [],
+                                             'external_body': False, 'marker': f.qname})
+                    edits.extend(e)
                 else:
-                    variants.append(('all', []))
-                end = toks[f.body_close].end
-                copies = []
-                for vname, extra in variants:
-                    vc = FnContract(c.qname)
-                    vc.params, vc.ret, vc.entry, vc.loops, vc.closures, vc.attrs = c.params, c.ret, c.entry, c.loops, c.closures, c.attrs
-                    vc.clauses = [x for x in c.clauses if x.kind == 'requires'] + [
-                        Clause('ensures', 'vacuity.%s' % vname, ['*'], 'both',
-                               ('%s is Err' % c.ret) if is_result else 'false', 'generated')]
-                    ce, cstart, _, _ = fn_edits(src, toks, f, vc, mode, mapping,
-                                                {'suffix': '__vac_%s' % vname, 'labels': None, 'extra_requires': extra,
-                                                 'external_body': False, 'marker': '%s#vac#%s' % (f.qname, vname)})
-                    rel = [(a - cstart, b - cstart, t) for a, b, t in ce]
-                    txt = apply_edits(src[cstart:end], rel)
-                    if txt.startswith('pub '):
-                        txt = txt[4:]
-                    copies.append(txt)
-                edits.append((end, end, '\n' + '\n'.join(copies) + '\n'))
-                finfo['vacuity_twins'] = [v[0] for v in variants]
-        elif mode == 'strict' and not c.strict:
-            e, _, nl, nc = fn_edits(src, toks, f, c, mode, mapping,
-                                    {'suffix': None, 'labels': None, 'extra_requires': [],
-                                     'external_body': True, 'marker': f.qname, 'note': 'NOT-IN-STRICT'})
-            edits.extend(e)
-            finfo['strict'] = False
-        elif not groups:
-            e, _, nl, nc = fn_edits(src, toks, f, c, mode, mapping,
-                                    {'suffix': None, 'labels': None, 'extra_requires': [],
-                                     'external_body': False, 'marker': f.qname})
-            edits.extend(e)
-        else:
-            # split verification: the original keeps the whole contract but is not verified itself;
-            # each copy re-verifies the same body against one group of ensures clauses (x one sign
-            # assignment of the group's atoms); together the copies cover every clause and every case
-            e, item_start, nl, nc = fn_edits(src, toks, f, c, mode, mapping,
-                                             {'suffix': None, 'labels': None, 'extra_requires': [],
-                                              'external_body': True, 'marker': f.qname})
-            edits.extend(e)
-            # strict file: clauses proved in the lenient file (mode both) stay on the unverified original - every strict
-            # execution is also a lenient one, so partial-correctness clauses carry over; only strict clauses are re-proved
-            ens_labels = [x.label for x in c.clauses if x.kind == 'ensures'
-                          and (x.mode == 'strict' if mode == 'strict' else x.mode in ('both', mode))]
-            covered = set()
-            for g in groups:
-                covered |= set(g['labels'])
-            rest = [l for l in ens_labels if l not in covered]
-            allgroups = list(groups)
-            if rest:
-                allgroups.append({'name': 'rest', 'labels': rest, 'atoms': [], 'assume': [], 'mode': 'both'})
-            all_labels = set(x.label for x in c.clauses if x.kind == 'ensures')
-            unknown = covered - all_labels
-            allgroups = [dict(g, labels=[l for l in g['labels'] if l in ens_labels]) for g in allgroups]
-            allgroups = [g for g in allgroups if g['labels']]
-            if unknown:
-                raise GenError('%s: @group names unknown clause(s) %s' % (f.qname, sorted(unknown)))
-            end = toks[f.body_close].end
-            fn_src_start = item_start
-            copies = []
-            splitinfo = []
-            for g in allgroups:
-                k = len(g['atoms'])
-                for bits in range(1 << k):
-                    extra = list(g.get('assume', []))
-                    for i, a in enumerate(g['atoms']):
-                        extra.append(('(%s)' % a) if (bits >> i) & 1 else ('!(%s)' % a))
-                    suffix = '__%s__%d' % (g['name'], bits)
-                    marker = '%s#%s#%d' % (f.qname, g['name'], bits)
-                    ce, cstart, _, _ = fn_edits(src, toks, f, c, mode, mapping,
-                                                {'suffix': suffix, 'labels': set(g['labels']),
-                                                 'extra_requires': extra, 'external_body': False,
-                                                 'marker': marker})
-                    rel = [(a - cstart, b - cstart, t) for a, b, t in ce]
-                    txt = apply_edits(src[cstart:end], rel)
-                    if txt.startswith('pub '):
-                        txt = txt[4:]
-                    copies.append(txt)
-                    splitinfo.append({'copy': marker, 'labels': g['labels'], 'case': extra})
-            edits.append((end, end, '\n' + '\n'.join(copies) + '\n'))
-            finfo['split'] = splitinfo
-        finfo['loops'] = nl
-        finfo['closures'] = nc
+                    # split verification: the original keeps the whole contract but is not verified itself;
+                    # each copy re-verifies the same body against one group of ensures clauses (x one sign
+                    # assignment of the group's atoms); together the copies cover every clause and every case
+                    e, item_start, nl, nc = fn_edits(src, toks, f, c, mode, mapping,
+                                                     {'suffix': None, 'labels': None, 'extra_requires': [],
+                                                      'external_body': True, 'marker': f.qname})
+                    edits.extend(e)
+                    # strict file: clauses proved in the lenient file (mode both) stay on the unverified original - every strict
+                    # execution is also a lenient one, so partial-correctness clauses carry over; only strict clauses are re-proved
+                    ens_labels = [x.label for x in c.clauses if x.kind == 'ensures'
+                                  and (x.mode == 'strict' if mode == 'strict' else x.mode in ('both', mode))]
+                    covered = set()
+                    for g in groups:
+                        covered |= set(g['labels'])
+                    rest = [l for l in ens_labels if l not in covered]
+                    allgroups = list(groups)
+                    if rest:
+                        allgroups.append({'name': 'rest', 'labels': rest, 'atoms': [], 'assume': [], 'mode': 'both'})
+                    all_labels = set(x.label for x in c.clauses if x.kind == 'ensures')
+                    unknown = covered - all_labels
+                    allgroups = [dict(g, labels=[l for l in g['labels'] if l in ens_labels]) for g in allgroups]
+                    allgroups = [g for g in allgroups if g['labels']]
+                    if unknown:
+                        raise GenError('%s: @group names unknown clause(s) %s' % (f.qname, sorted(unknown)))
+                    end = toks[f.body_close].end
+                    fn_src_start = item_start
+                    copies = []
+                    splitinfo = []
+                    for g in allgroups:
+                        k = len(g['atoms'])
+                        for bits in range(1 << k):
+                            extra = list(g.get('assume', []))
+                            for i, a in enumerate(g['atoms']):
+                                extra.append(('(%s)' % a) if (bits >> i) & 1 else ('!(%s)' % a))
+                            suffix = '__%s__%d' % (g['name'], bits)
+                            marker = '%s#%s#%d' % (f.qname, g['name'], bits)
+                            ce, cstart, _, _ = fn_edits(src, toks, f, c, mode, mapping,
+                                                        {'suffix': suffix, 'labels': set(g['labels']),
+                                                         'extra_requires': extra, 'external_body': False,
+                                                         'marker': marker})
+                            rel = [(a - cstart, b - cstart, t) for a, b, t in ce]
+                            txt = apply_edits(src[cstart:end], rel)
+                            if txt.startswith('pub '):
+                                txt = txt[4:]
+                            copies.append(txt)
+                            splitinfo.append({'copy': marker, 'labels': g['labels'], 'case': extra})
+                    edits.append((end, end, '\n' + '\n'.join(copies) + '\n'))
+                    finfo['split'] = splitinfo
+                finfo['loops'] = nl
+                finfo['closures'] = nc
+                break
+            except GenError as ex:
+                if attempt == 0 and 'lost anchor' in str(ex) and f.qname not in report.get('unextractable', {}):
+                    del edits[mark:]
+                    report.setdefault('unextractable', {})[f.qname] = str(ex)
+                    continue
+                raise
     tnames = []
     for kind, name, k, j, cl in types:
         tnames.append(name)
